@@ -279,9 +279,35 @@ pub fn run(suite: &str, a: &[&str]) -> Option<String> {
             let (_, _, log) = run_case(&c);
             log.iter().map(scall).collect::<Vec<_>>().join(" ; ")
         }
+        "tcrop" => tcrop(a),
         "p_stack" => p_stack(&parse(a)),
         _ => return None,
     })
+}
+
+/// The `Cropped` colour iterator (pub(crate)) observed through the public API: a clipped target whose
+/// clip area is the crop rectangle re-cuts the stream of `fill_contiguous(Rectangle(0,0,w,h), stream)` with
+/// `Cropped::new(stream, (w,h), crop /\ area)`; the colours that reach the native parent are the items the
+/// iterator yields (at most width*height of the intersection, which is all it can yield).
+///   tcrop <w> <h> <crop x y w h> L n c*n | I c
+fn tcrop(a: &[&str]) -> String {
+    let area = Rectangle::new(Point::zero(), Size::new(u(a[0]), u(a[1])));
+    let crop = rc(a[2], a[3], a[4], a[5]);
+    let mut t: NativeTarget<K> = NativeTarget::new(crop);
+    {
+        let mut c = t.clipped(&crop);
+        if a[6] == "L" {
+            let n = us(a[7]);
+            let cs: Vec<u32> = (0..n).map(|i| u(a[8 + i])).collect();
+            c.fill_contiguous(&area, cs.iter().map(|&c| K(c as u8))).unwrap();
+        } else {
+            c.fill_contiguous(&area, core::iter::repeat(K(u(a[7]) as u8))).unwrap();
+        }
+    }
+    match t.log.last() {
+        Some(Call::FillContiguous(_, cs)) => cs.iter().map(|c| c.to_string()).collect::<Vec<_>>().join(","),
+        _ => "NO-CALL".into(),
+    }
 }
 
 // ---- direct property search: set-theoretic reference, written without the library's geometry ----
